@@ -124,6 +124,10 @@ def checkAllowed (a tokenID role : Bytes) : M Unit := do
   guardE isNew ActionNotAllowed
   guardE (!roles.contains role) ActionNotAllowed
 
+/-- the conditional second role check of ESDTNFTCreate -/
+def checkAllowedIf (b : Bool) (a tokenID role : Bytes) : M Unit :=
+  if b then checkAllowed a tokenID role else pure ()
+
 /-- `deleteRoles`: remove the first occurrence of each listed role -/
 def deleteRoles (roles : List Bytes) (del : List Bytes) : List Bytes :=
   del.foldl (fun rs d => rs.erase d) roles
@@ -301,7 +305,7 @@ def esdtNFTCreate (env : Env) (c : Call) : M VMOutput := do
   let a1 ← argAt c.args 1
   let quantity := beNat a1
   guardE (quantity = 0) InvalidArguments
-  if quantity > 1 then checkAllowed c.caller tokenID roleNFTAddQuantity
+  checkAllowedIf (quantity > 1) c.caller tokenID roleNFTAddQuantity
   let nextNonce := u64 (nonce + 1)
   let a2 ← argAt c.args 2
   let a4 ← argAt c.args 4
